@@ -20,8 +20,8 @@ Inductive rop :=
 | RObs (c : Z).
 
 Inductive case :=
-| CSys64 (sr buf fuel : Z) (ops : list rop)
-| CSysQ (sr buf fuel : Z) (ops : list rop)
+| CSys64 (sr buf : Z) (ops : list rop)
+| CSysQ (sr buf : Z) (ops : list rop)
 | CSched (pubs : list (Z * Z)) (prog : list Z) (sched : list Z).   (* the two-word protocol under a schedule *)
 
 Section Run.
@@ -57,23 +57,23 @@ Section Run.
   Definition enc_waiter (w : waiter T) : list Z :=
     match w_state w with WWaiting => [0; -1] | WBegun f => [1; f] | WStopped => [2; -1] end.
 
-  Fixpoint go (fuel : nat) (y : sys T) (ops : list rop) : list Z :=
+  Fixpoint go (y : sys T) (ops : list rop) : list Z :=
     match ops with
     | [] => flat_map enc_waiter (y_waiters y)
     | RObs c :: ops' =>
         match handle_view y (Z.to_nat c) with
         | Some (b, tk, fr) => (if b then 1 else 0) :: tk :: enc fr
         | None => [-7]
-        end ++ go fuel y ops'
+        end ++ go y ops'
     | o :: ops' =>
-        match sys_step powf fuel y (mk_op o) with
-        | Ok y' => go fuel y' ops'
+        match sys_step powf y (mk_op o) with
+        | Ok y' => go y' ops'
         | Panic k => [1000 + panic_code k]
         | Hang => [2000]
         end
     end.
-  Definition run_sys (sr buf fuel : Z) (ops : list rop) : list Z :=
-    go (Z.to_nat fuel) (sys_new sr buf) ops.
+  Definition run_sys (sr buf : Z) (ops : list rop) : list Z :=
+    go (sys_new sr buf) ops.
 End Run.
 
 Definition dec64 (x : rnum) : f64 := let 'RN b _ _ := x in f64_of_bits b.
@@ -88,8 +88,8 @@ Definition enc_read (r : read_rec) : list Z :=
 
 Definition run (c : case) : list Z :=
   match c with
-  | CSys64 sr buf fuel ops => run_sys dec64 enc64 (fun _ _ => f64_of_bits 0x0123456789ABCDEF) sr buf fuel ops
-  | CSysQ sr buf fuel ops => run_sys decQ encQ (fun _ _ => 0%Q) sr buf fuel ops
+  | CSys64 sr buf ops => run_sys dec64 enc64 (fun _ _ => f64_of_bits 0x0123456789ABCDEF) sr buf ops
+  | CSysQ sr buf ops => run_sys decQ encQ (fun _ _ => 0%Q) sr buf ops
   | CSched pubs prog sched =>
       let s := run_sched (map mk_tid sched) (init_st pubs (map mk_hop prog)) in
       m_ticks s :: m_frac s :: flat_map enc_read (rev (h_reads s))
